@@ -136,6 +136,7 @@ def build(cls, shape, tags, flags, meta):
     C = _imp()
     tab = table(kind_of(cls))
     data = tab[np.array(tags, dtype=int)].reshape(tuple(shape) + (tab.shape[1],)).copy()
+    data = common.relayout(data, (cls, list(shape), list(tags)))       # same values, memory layout chosen by the case
     if cls == "Miller":
         o = C[cls](xyz=data, phase=phase_by_name(meta["phase"]))
         o.coordinate_format = meta["fmt"]
